@@ -88,6 +88,23 @@ CLAIMED = {
              "of the 304 types in any version is reported with class, region and both sub-sequences; pure member renames are tolerated.",
         note="reference = pinned sources vendored under /verif/reference; a data gate rewritten into an algebraically equal but "
              "differently shaped expression would be reported (stated residual); primitive semantics (SyncHalf) only via layouts"),
+    "C09": dict(
+        cat="other", ref="DESIGN.md §5 C09",
+        technique="static analysis: per-vertex-array coverage (arrays sized to the vertex count in Sync vs arrays erased by notifyVerticesDelete, by summary composition), override-chain and counter-refresh obligation dataflow, orchestrator dispatch coverage",
+        text="Decides the structural clauses of vertex deletion: every member array that a class's Sync sizes to the vertex count is "
+             "erased by its notifyVerticesDelete (or a base implementation it calls); every override calls its non-empty base exactly "
+             "once on every path; DeleteVertsForShape reaches every class in scope through a dispatching receiver type; each counter "
+             "is re-derived from an erased array after the erase. Known finding: BSTriShape particle arrays are not erased.",
+        note="order preservation inside EraseVectorIndices, triangle re-indexing, segment bookkeeping order contracts and partition "
+             "re-fitting are value-level and not decided"),
+    "C10": dict(
+        cat="other", ref="DESIGN.md §5 C10",
+        technique="static analysis: sibling agreement of partition-list edits (pairing rule with type-test guard dominance)",
+        text="Thin partial: only the clause 'the dismember partition list stays aligned with the partitions' is decided — every NifFile "
+             "function that changes the length of NiSkinPartition::partitions makes the corresponding edit of "
+             "BSDismemberSkinInstance::partitions under a dismember type test. Exact triangle cover, the bone limit and weight sums "
+             "quantify over runtime values and are NOT decided by this check.",
+        note="everything numeric in C10 is outside static reach; this check decides one necessary structural clause only"),
     "C11": dict(
         cat="proof", ref="DESIGN.md §5 C11",
         technique="static analysis: ownership census over record layouts/types (no pointer-like members outside the re-linked caches), re-link dominance dataflow in CopyFrom, clone-wiring and mutable-static census",
@@ -100,6 +117,24 @@ CLAIMED = {
              "inherited from clone wiring + C01 and not separately decided.",
         note="trusted: clang front end and record layouts, extractor, value semantics of std containers (vector/string/array/set/"
              "map deep-copy their elements)"),
+    "C12": dict(
+        cat="other", ref="DESIGN.md §5 C12",
+        technique="static analysis: sibling agreement of the two conversion branches of OptimizeFor (attribute-transfer sets vs enumerated references), must-call obligation dataflow",
+        text="Thin partial: both conversion directions copy the same set of shape attributes and that set covers every reference "
+             "enumerated by the shape's base classes plus the shape's own reference accessors; duplicate names are resolved before "
+             "conversion on non-terrain paths; UpdateSkinPartitions follows every shape replacement; each conversion loop is followed "
+             "by pruning. Geometry/weight/colour preservation and there-and-back equivalence are numeric and NOT decided.",
+        note="partition index conventions (bMappedIndices), vertex data arithmetic and validity of the written file are not decided"),
+    "C14": dict(
+        cat="other", ref="DESIGN.md §5 C14",
+        technique="static analysis: taint/effect analysis of the clone functions (source-derived values vs transitive receiver mod-sets), clone=>re-link pairing, enumerator coverage of CloneChildren",
+        text="Decides: nothing reached from the source model (srcNif, srcShape and values derived from them through locals, range "
+             "variables and lambda captures) is assigned or has a modifying method called on it in CloneShape/CloneChildren/"
+             "CloneNamedNode; a cloned shape is re-linked to geometry data looked up in the destination header; CloneChildren "
+             "consults GetChildRefs, GetStringRefs and GetPtrs of the clone, rewrites references to ids returned by the destination "
+             "header's AddBlock and re-registers strings with the destination header.",
+        note="no aliasing between distinct objects is assumed; which ancestor ids the recursion carries for pointer rebinding and the "
+             "bone list content are value-level and not decided"),
     "C15": dict(
         cat="other", ref="DESIGN.md §5 C15",
         technique="static analysis: forward nullness dataflow with interprocedural deref summaries, SCC-based recursion-gate analysis with visited-set facts, bounded graph-walk loops, range-guard dominance",
@@ -119,6 +154,14 @@ CLAIMED = {
              "fixed). Allocation sizes and value-level PrepareData logic are not decided.",
         note="guards are recognised as dataflow facts (if/early return/&&/?:); arithmetic reasoning about non-zero-ness beyond a "
              "direct test is not attempted"),
+    "C19": dict(
+        cat="other", ref="DESIGN.md §5 C19",
+        technique="static analysis: sibling agreement of the texture-slot walkers (slot coverage and guard-set inclusion after expanding locals to their defining lookups), must-call dataflow on the load path",
+        text="Thin partial: every texture string slot GetTexturePathRefs can reach is cleaned by TrimTexturePaths under a guard set that "
+             "is a subset of the accessor's, and the clean-up runs on every completing path of PrepareData, which Load's success path "
+             "reaches. Found and fixed this way: effect-shader texture paths were never cleaned. The canonical form, idempotence and "
+             "termination of the regex pipeline are string semantics and NOT decided.",
+        note="what TrimTexturePaths computes for a given string is outside static reach"),
 }
 
 NOT_APPLICABLE = {
